@@ -170,6 +170,49 @@ Definition dedup (l : list string) : list string :=
 Definition state_written (l : list event) : list string :=
   dedup (filter (fun f => mem f state_fields) (flat_map ev_writes l)).
 
+(* ---- producer-before-consumer ordering inside a stage list ------------------------------
+   [war l]: the Data fields that some event of l only READS (not among its own writes) and
+   that a LATER event of the same list writes, computed for the list itself and,
+   recursively, for every nested list (EIf branches, EGroup / ELoop bodies).  A field is
+   absent from [war l] exactly when ALL its writers precede every pure reader.  The lists
+   below are today's values; e.g. d.M is absent from war(step1): every launch that writes
+   or accumulates into d.M (smooth._M of crb AND smooth._tendon_armature) precedes
+   factor_m's read, so d.qLD left by step1 factorises the finished d.M. *)
+Fixpoint war_list (l : list event) : list string :=
+  match l with
+  | nil => nil
+  | e :: r =>
+      let wr := flat_map ev_writes r in
+      let pure := filter (fun f => negb (mem f (ev_writes e))) (ev_reads e) in
+      filter (fun f => String.prefix "d." f && mem f wr) pure ++ war_list r
+  end.
+Fixpoint war_ev (e : event) : list string :=
+  let go := (fix go (l : list event) : list string :=
+               match l with nil => nil | x :: r => war_ev x ++ go r end) in
+  match e with
+  | EGroup _ _ b => war_list b ++ go b
+  | EIf _ t el => war_list t ++ go t ++ war_list el ++ go el
+  | ELoop _ b => war_list b ++ go b
+  | _ => nil
+  end.
+Definition war (l : list event) : list string := dedup (war_list l ++ flat_map war_ev l).
+
+(* fields legitimately rewritten after being read inside one call, per entry point:
+   constraint counters and efc bookkeeping re-zeroed/re-counted by later kernels, d.cvel /
+   d.cdof_dot (com_vel before make_constraint when neq > 0, again in fwd_velocity),
+   sensordata/history (delayed sensors), and in step2 the integrator's state update *)
+Definition war_step1 : list string :=
+  ["d.ne"; "d.nf"; "d.nl"; "d.nefc"; "d.efc.jtdaj_nblock"; "d.cvel"; "d.cdof_dot";
+   "d.subtree_linvel"; "d.naconmax"; "d.efc.id"; "d.sensordata"; "d.history"].
+Definition war_step2 : list string :=
+  ["d.time"; "d.history"; "d.act"; "d.qacc_warmstart"; "d.qvel"; "d.actuator_force"; "d.qacc";
+   "d.efc.force"; "d.qfrc_constraint"; "d.efc.Ma"; "d.efc.state"; "d.sensordata"].
+Definition war_forward : list string :=
+  war_step1 ++ ["d.qacc"; "d.cacc"; "d.cfrc_ext"; "d.cfrc_int"; "d.actuator_force";
+                "d.efc.force"; "d.qfrc_constraint"; "d.efc.Ma"; "d.efc.state"].
+Definition war_unexplained (baseline : list string) (l : list event) : list string :=
+  filter (fun f => negb (mem f baseline)) (war l).
+
 (* ---- C12: def-before-use ------------------------------------------------------------------ *)
 (* full writers visible at field granularity: zero_/fill_ destinations and the destination
    of a copy from a DIFFERENT array (Pipeline.full_basic without the self-copy case, for
